@@ -89,6 +89,40 @@ var c06Directs = func() []c06direct {
 	}
 }()
 
+type C06Base struct{ ID string }
+type C06Inner struct{ Deep int }
+type c06Embedding struct {
+	*C06Base
+	*C06Inner
+	Name string
+}
+
+// embedded: the destination embeds pointers to structs (nil in a fresh destination); the schema names promoted fields
+func embeddedDirect() c06direct {
+	sch := func() *z.StructSchema {
+		return z.Struct(z.Schema{"ID": z.String().Required(), "deep": z.Int(), "name": z.String()})
+	}
+	return c06direct{name: "Struct naming promoted fields of embedded pointers (*Base, *Inner)", own: []any{map[string]any{"ID": "x", "deep": 3, "name": "n"}, map[string]any{"name": "n"}, map[string]any{}, nil, map[string]any{"ID": 5}},
+		run: func(place int, data any) {
+			switch place {
+			case 0:
+				var d c06Embedding
+				sch().Parse(data, &d)
+			case 1:
+				var d struct{ V c06Embedding }
+				z.Struct(z.Schema{"v": sch()}).Parse(map[string]any{"v": data}, &d)
+			case 2:
+				var d []c06Embedding
+				z.Slice(sch()).Parse([]any{data, data}, &d)
+			case 3:
+				var d *c06Embedding
+				z.Ptr(sch()).Parse(data, &d)
+			}
+		}}
+}
+
+func init() { c06Directs = append(c06Directs, embeddedDirect()) }
+
 func c06DirectCase(c *core.Ctx, d c06direct) {
 	inputs := append(append([]any{}, d.own...), c06Hostile...)
 	for i, in := range inputs {
